@@ -342,6 +342,26 @@ func runC11(c *eng.Ctx) {
 		}
 	}
 
+	// ---------------------------------------------------------------- REG-announced
+	// the layout marks (oversized, read-only) are computed from the info a heartbeat announces, the writability checks
+	// read the info registered on the data node: an incremental announcement registers every announced volume with
+	// the announced info, on every iteration, so the two views describe the same state
+	if fn := c.NeedFunc("weed/topology", "(*DataNode).DeltaUpdateVolumes"); fn != nil {
+		n := 0
+		for i, in := range eng.Find(fn, eng.PlainCallTo("topology.DataNode).doAddOrUpdateVolume")) {
+			if h, _ := eng.InnermostLoop(in.Block()); h == nil {
+				continue
+			}
+			n++
+			ok, path := eng.OnEveryIteration(in)
+			c.Ob("REG-announced", fmt.Sprintf("%s registers-every-announced-volume#%d", eng.FuncName(fn), i), ok, in.Pos(),
+				"every volume of an incremental announcement is registered with the announced info (no iteration skips the registration)"+ifs(!ok, "; skipping iteration: "+eng.DescribePath(c.P, fn, path)))
+		}
+		if n == 0 {
+			c.Undecided("REG-announced", eng.FuncName(fn), fn.Pos(), "registration loop not found")
+		}
+	}
+
 	// ---------------------------------------------------------------- REG-locations
 	// registering a replica always records its server in the volume's location list; unregistering removes it, forgets
 	// its read-only / oversized marks, re-evaluates writability and drops the volume when no replica is left
